@@ -356,7 +356,7 @@ class PyvalColorizer:
         elif pyvaltype is tuple:
             # tuples need an ending comma when they contains only one value.
             self._multiline(self._colorize_iter, pyval, state, prefix='(', 
-                            suffix=(',' if len(pyval) <= 1 else '')+')')
+                            suffix=(',' if len(pyval) == 1 else '')+')')
         elif pyvaltype is set:
             self._multiline(self._colorize_iter, pyval,
                             state, prefix='set([', suffix='])')
@@ -686,8 +686,10 @@ class PyvalColorizer:
             # In Python < 3.9, non-slices are always wrapped in an Index node.
             sub = sub.value
         self._output('[', self.GROUP_TAG, state)
-        if isinstance(sub, ast.Tuple):
-            self._multiline(self._colorize_iter, sub.elts, state)
+        if isinstance(sub, ast.Tuple) and sub.elts:
+            # tuples need an ending comma when they contain only one value.
+            self._multiline(self._colorize_iter, sub.elts, state, 
+                            suffix=',' if len(sub.elts) == 1 else None)
         else:
             state.result.append(self.WORD_BREAK_OPPORTUNITY)
             self._colorize(sub, state)
